@@ -62,7 +62,7 @@ def _work(args):
     for i in range(start, stop):
         seed = run_seed(base, pid, tier, i)
         try:
-            case = mod.generate(seed, tier)
+            case = mod.case_at(i, seed, tier) if hasattr(mod, 'case_at') else mod.generate(seed, tier)
             out = mod.evaluate(case)
         except Exception:     # noqa
             agg['harness'].append((i, traceback.format_exc()[-1500:]))
@@ -379,7 +379,7 @@ def check(pid, tier='quick', base_seed=0, runs=None, wall_cap=None, corpus=True,
             continue
         seen_tags.add(tag)
         seed = run_seed(base_seed, pid, tier, i)
-        case = mod.generate(seed, tier)
+        case = mod.case_at(i, seed, tier) if hasattr(mod, 'case_at') else mod.generate(seed, tier)
         try:
             best, tapes, steps = minimise(mod, case, tag) if not tag.startswith('unlisted-') else (case, None, 0)
             o = mod.evaluate(best, tapes)
